@@ -471,8 +471,12 @@ def r2_random_sources(ctx) -> None:
             quoting = [k for k in (".explain(", ".markInputline(", ".mark_input_line(", ".line", ".pstr", "self.condition") if k in txt]
             if quoting:
                 r.violation("C20.R2", q, short(rs, 120), f"the error message quotes the condition text ({quoting[0]}): conditions are parsed after filters and add_condition rewrote them with random identifiers, so the error record of a failing rule differs from run to run", loc)
-            elif any(isinstance(x, ast.FormattedValue) and unparse(x.value).strip() in ("self.identifier", "self.pattern") for x in ast.walk(rs.exc)):
-                r.violation("C20.R2", q, short(rs, 120), "the error message quotes an identifier/selector token of the condition: filter conditions are rewritten with the random '_filt_<10 letters>_' prefix before they are parsed, so an identifier the filter does not define is reported under a name that differs from run to run", loc)
+            elif (quoted := [unparse(x.value).strip() for x in ast.walk(rs.exc) if isinstance(x, ast.FormattedValue) and unparse(x.value).strip() in ("self.identifier", "self.pattern")]
+                            + [unparse(x).strip() for x in ast.walk(rs.exc) if isinstance(x, ast.Attribute) and unparse(x) in ("self.identifier", "self.pattern") and isinstance(prog.parent(x), (ast.BinOp, ast.Call)) and not isinstance(prog.parent(x), ast.FormattedValue)]):
+                # keyed by class and quoted attribute, not by the statement: the raise may move into a helper of the class
+                literal = " … ".join(str(c_.value).strip() for j_ in ast.walk(rs.exc) if isinstance(j_, ast.JoinedStr) for c_ in j_.values if isinstance(c_, ast.Constant) and str(c_.value).strip()) or \
+                    " … ".join(c_.value.strip() for c_ in ast.walk(rs.exc) if isinstance(c_, ast.Constant) and isinstance(c_.value, str) and c_.value.strip())
+                r.violation("C20.R2", fi.cls.qual if fi.cls is not None else q, f"the error message \"{literal}\" quotes {quoted[0]}", "the error message quotes an identifier/selector token of the condition: filter conditions are rewritten with the random '_filt_<10 letters>_' prefix before they are parsed, so an identifier the filter does not define is reported under a name that differs from run to run", loc)
             elif "ParseException" in unparse(prog.enclosing_stmt(rs)) or "str(e)" in txt:
                 r.ok("C20.R2", q, f"parse error reported as {short(rs.exc, 60)} (position and expectation, not the condition text)", loc)
     # conversion code must not read the places random names live in
